@@ -75,3 +75,139 @@ contract(MT + '_apply_transfer_annotation',
                                                     "node.transfer == old(node.transfer) "
                                                     "and LOGGER._warning_count == old(LOGGER._warning_count) + 1)",
          })
+
+# ------------------------------------------------------------------------------------------------
+contract(MT + '_resolve_toplevel',
+         params={'self': 'MainTransformer', 'type_str': 'str', 'type_node': 'Type?', 'node': 'any', 'parent': 'any'},
+         returns='Type', fresh_result=True, trusted=True,
+         modifies=['LOGGER._warning_count'], raises={'KeyError': 'maybe'},
+         ensures={'keeps_ctype': "implies(type_node is not None, result.ctype == type_node.ctype and "
+                                 "result.complete_ctype == type_node.complete_ctype)",
+                  'count_monotone': 'LOGGER._warning_count >= old(LOGGER._warning_count)'},
+         note='(type ...) annotation: type-string parser (_resolve) is not under contract')
+
+
+def has(tag, name):
+    return tag is not None and name in tag.annotations
+
+
+def annotated_direction(tag):
+    if has(tag, 'inout'):
+        return 'inout'
+    if has(tag, 'out'):
+        return 'out'
+    if has(tag, 'in'):
+        return 'in'
+    return None
+
+
+def container_annotated(tag):
+    return has(tag, 'array') or has(tag, 'element-type')
+
+
+contract(MT + '_adjust_container_type',
+         params={'self': 'MainTransformer', 'parent': 'Node', 'node': 'Parameter|Return|Field', 'annotations': 'Annotations'},
+         trusted=True,
+         modifies=['node.type', '*.direction', '*.transfer', '*.element_type', '*.key_type', '*.value_type',
+                   'LOGGER._warning_count'],
+         raises={'KeyError': 'maybe', 'SystemExit': 'maybe'},
+         ensures={
+             'direction_kept': 'node.direction == old(node.direction)',
+             'transfer_kept': "node.transfer == old(node.transfer) or 'array' in annotations",
+             'type_kept_without_array': "implies('array' not in annotations, node.type is old(node.type))",
+             'noop_without_container_annotation': "implies('array' not in annotations and 'element-type' not in annotations "
+                                                  "and not isinstance(old(node.type), ast.Array), "
+                                                  "LOGGER._warning_count == old(LOGGER._warning_count))",
+             'ctype_kept': "node.type.ctype == old(node.type.ctype)",
+             'fundamental_array': "implies('array' in annotations, isinstance(node.type, ast.Array) or node.type is old(node.type))",
+             'count_monotone': 'LOGGER._warning_count >= old(LOGGER._warning_count)',
+         },
+         note='array / element-type handling is verified separately (C01.array.*)')
+
+
+def expected_caller_allocates(self, node, tag):
+    """(out) with an option: as written; bare (out): structures/unions passed by single indirection"""
+    options = tag.annotations['out']
+    if len(options) == 0:
+        if node.type.target_giname and node.type.ctype:
+            target = self._transformer.resolve_aliases(self._transformer.lookup_giname(node.type.target_giname))
+            return ('**' not in node.type.ctype) and isinstance(target, (ast.Record, ast.Union))
+        return False
+    if options[0] == 'caller-allocates':
+        return True
+    return False
+
+
+contract(MT + '_apply_annotations_param_ret_common',
+         params={'self': 'MainTransformer', 'parent': 'Node', 'node': 'Parameter|Return', 'tag': 'GtkDocParameter|GtkDocTag?'},
+         props=('C01', 'C02'), chunks=10,
+         requires=[CTYPE_OK],
+         modifies=['node.type', 'node.direction', 'node.caller_allocates', 'node.nullable', 'node.not_nullable',
+                   'node.optional', 'node.skip', 'node.doc', 'node.doc_position', 'node.attributes{}',
+                   '*.transfer', '*.direction', '*.element_type', '*.key_type', '*.value_type',
+                   'LOGGER._warning_count'],
+         raises={'KeyError': 'True', 'AssertionError': 'True', 'SystemExit': 'True'},
+         loops={1: {'invariant': ['node.skip == (old(node.skip) or has(tag, "skip"))',
+                                  'LOGGER._warning_count >= old(LOGGER._warning_count)'],
+                    'modifies': ['node.attributes{}']}},
+         let={'adir': 'annotated_direction(tag)'},
+         ensures={
+             # ---- direction
+             'C01.direction.applied': "implies(adir is not None, node.direction == adir)",
+             'C01.direction.absent_unchanged': "implies(adir is None, node.direction == old(node.direction))",
+             'C01.direction.caller_allocates': "implies(adir == 'out' and old(node.direction) != 'out' and not has(tag, 'array'), "
+                                               "node.caller_allocates == expected_caller_allocates(self, node, tag))",
+             'C01.direction.inout_in_not_caller_allocated': "implies(adir in ('inout', 'in') and old(node.direction) != adir, "
+                                                            "node.caller_allocates == False)",
+             'C01.direction.unchanged_keeps_allocation': "implies(adir is None, node.caller_allocates == old(node.caller_allocates))",
+             # ---- nullable / optional / not
+             'C01.nullable.valid_applied': "implies(has(tag, 'nullable') and spec_pointer_like(self, node) and not has(tag, 'not'), "
+                                           "node.nullable == True and node.not_nullable == False)",
+             'C01.nullable.invalid_unchanged': "implies(has(tag, 'nullable') and not spec_pointer_like(self, node) "
+                                               "and not has(tag, 'not') and not has(tag, 'allow-none'), "
+                                               "node.nullable == (old(node.nullable) or denotes(node.type, ('gpointer',)) "
+                                               " or (node.direction != 'out' and node.type.target_giname in ('Gio.AsyncReadyCallback', 'Gio.Cancellable'))) "
+                                               "and LOGGER._warning_count > old(LOGGER._warning_count))",
+             'C01.optional.valid_applied': "implies(has(tag, 'optional') and isinstance(node, ast.Parameter) "
+                                           "and node.direction in ('out', 'inout'), node.optional == True)",
+             'C01.optional.invalid_unchanged': "implies(has(tag, 'optional') and not (isinstance(node, ast.Parameter) "
+                                               "and node.direction in ('out', 'inout')) and not has(tag, 'allow-none'), "
+                                               "isinstance(node, ast.Return) or (node.optional == old(node.optional) "
+                                               "and LOGGER._warning_count > old(LOGGER._warning_count)))",
+             'C01.optional.in_parameter_rejected': "implies(has(tag, 'optional') and isinstance(node, ast.Parameter) "
+                                                   "and node.direction not in ('out', 'inout') and not has(tag, 'allow-none'), "
+                                                   "node.optional == old(node.optional) and LOGGER._warning_count > old(LOGGER._warning_count))",
+             'C01.allow_none.out_param_optional': "implies(has(tag, 'allow-none') and isinstance(node, ast.Parameter) "
+                                                  "and node.direction == 'out', node.optional == True)",
+             'C01.allow_none.pointer_nullable': "implies(has(tag, 'allow-none') and not (isinstance(node, ast.Parameter) "
+                                                "and node.direction == 'out') and spec_pointer_like(self, node) and not has(tag, 'not'), "
+                                                "node.nullable == True)",
+             'C01.not.overrides': "implies(has(tag, 'not'), node.nullable == False and node.not_nullable == True)",
+             # ---- no annotation => exact no-op on these attributes (quiet)
+             'C01.unannotated.quiet': "implies(tag is None and not isinstance(old(node.type), ast.Array), LOGGER._warning_count == old(LOGGER._warning_count) "
+                                      "and node.direction == old(node.direction) and node.optional == old(node.optional) "
+                                      "and node.skip == old(node.skip) and node.transfer == old(node.transfer) "
+                                      "and node.type is old(node.type) and node.not_nullable == old(node.not_nullable))",
+             'C01.valid_only.quiet': "implies(tag is not None and not container_annotated(tag) and not has(tag, 'type') "
+                                     "and (adir is None or isinstance(node, ast.Parameter)) "
+                                     "and not isinstance(old(node.type), ast.Array) "
+                                     "and (not has(tag, 'nullable') or spec_pointer_like(self, node)) "
+                                     "and (not has(tag, 'allow-none') or spec_pointer_like(self, node) or "
+                                     "     (isinstance(node, ast.Parameter) and node.direction == 'out')) "
+                                     "and (not has(tag, 'optional') or (isinstance(node, ast.Parameter) and node.direction in ('out', 'inout'))) "
+                                     "and (not (bool(tag.annotations.get('transfer')) and len(tag.annotations.get('transfer')) == 1) "
+                                     "     or valid_transfer(self, tag.annotations.get('transfer')[0], node, tag.annotations)), "
+                                     "LOGGER._warning_count == old(LOGGER._warning_count))",
+             # ---- skip / doc
+             'C01.skip': "node.skip == (old(node.skip) or has(tag, 'skip'))",
+             'C01.doc': "implies(tag is not None and bool(tag.description), node.doc == tag.description)",
+             # ---- transfer
+             'C01.transfer.valid_applied': "implies(tag is not None and not has(tag, 'array') "
+                                           "and bool(tag.annotations.get('transfer')) and len(tag.annotations.get('transfer')) == 1 "
+                                           "and valid_transfer(self, tag.annotations.get('transfer')[0], node, tag.annotations) "
+                                           "and not has(tag, 'type'), "
+                                           "node.transfer == ('none' if tag.annotations.get('transfer')[0] == 'floating' "
+                                           "else tag.annotations.get('transfer')[0]))",
+             # ---- C02: untyped pointers are nullable by default
+             'C02.gpointer_nullable': "implies(denotes(node.type, ('gpointer',)) and not has(tag, 'not'), node.nullable == True)",
+         })
